@@ -30,27 +30,27 @@ verus! {
 // keyword table lookups are abstract here (the tables themselves are C20's subject)
 #[verifier::external_body]
 pub struct Record { x: u8 }
+pub uninterp spec fn rec_get(r: Record, k: Seq<u8>) -> Option<Seq<char>>;
 impl Record {
     #[verifier::external_body]
-    pub fn get(&self, k: &Vec<u8>) -> Option<&String> { unimplemented!() }
+    pub fn get(&self, k: &Vec<u8>) -> (r: Option<&String>)
+        ensures match rec_get(*self, k@) { Some(n) => r matches Some(x) && x@ == n, None => r is None }
+    { unimplemented!() }
 }
 #[verifier::external_body]
 pub fn is_printable_string(s: &String) -> bool { unimplemented!() }
+// R25: `kw.to_string()` on a &String is a copy of it
+#[verifier::external_body]
+pub fn verif_string_copy(s: &String) -> (r: String) ensures r@ == s@ { unimplemented!() }
 
 //@ note ir_for_atom: with keywords off, an atom of 1 or 2 bytes is printed as a decimal integer exactly when it is canonical and as hex otherwise; every form carries the atom's bytes unchanged
 //@ extract fn ir_for_atom from src/classic/clvm_tools/binutils.rs
 //@ canary allow_zero_int @<if !verif_vec_is_single(atom.data(), 0) && !has_oversized_sign_extension(atom) {>@ => @<if !has_oversized_sign_extension(atom) || verif_vec_is_single(atom.data(), 0) {>@
 //@ replace R25 @<keyword_from_atom: &Record<Vec<u8>, String>,>@ => @<keyword_from_atom: &Record,>@
+//@ replace R25 @<kw.to_string()>@ => @<verif_string_copy(kw)>@
 //@ replace R25 @<String::from_utf8(atom.data().to_vec())>@ => @<verif_string_from_utf8(atom.data().to_vec())>@
 //@ replace R7 @<if atom.data() != &[0] && !has_oversized_sign_extension(atom) {>@ => @<if !verif_vec_is_single(atom.data(), 0) && !has_oversized_sign_extension(atom) {>@
-//@ sig r
-    ensures
-        bv(*atom).len() == 0 ==> r is Null,
-        (1 <= bv(*atom).len() <= 2 && !allow_keyword) ==> (if is_min_signed(bv(*atom)) { r matches IRRepr::Int(b, sg) && bv(b) == bv(*atom) && sg } else { r matches IRRepr::Hex(b) && bv(b) == bv(*atom) }),
-        bv(*atom).len() > 2 ==> ((r matches IRRepr::Quotes(b) && bv(b) == bv(*atom)) || (r matches IRRepr::Hex(b) && bv(b) == bv(*atom))),
-        r is Int ==> is_min_signed(bv(*atom)) && bv(r->Int_0) == bv(*atom),
-        r is Hex ==> bv(r->Hex_0) == bv(*atom),
-        r is Quotes ==> bv(r->Quotes_0) == bv(*atom),
+//@ sigfile r contracts/ir_for_atom.sig
 //@ end
 
 // C09 / integer route: an atom printed as the decimal of its signed value and re-encoded
